@@ -70,7 +70,10 @@ def check_value(case, ctx):
     tol = sq_tol(kff, kgg, len(F) + len(G), sigma)
     ctx.require(abs(v * v - ref2) <= tol, "value",
                 lambda: "heat^2=%r, k(F,F)+k(G,G)-2k(F,G)=%r (tol %r) sigma=%r F=%s G=%s" % (v * v, ref2, tol, sigma, F, G))
-    if ref2 >= 1e-8 * (kff + kgg) and ref2 > 100 * tol:
+    if ref2 >= 1e-8 * (kff + kgg) and ref2 > 1e7 * tol:
+        # (only where the squared comparison above already pins the value to better than 1e-7 relative: the kernel sums cancel
+        # twice - inside each term for sigma >> coordinates, and between the three kernels - so a looser guard raised a false
+        # alarm of 1e-6 relative on sigma = 1000, coordinates 0.14)
         ctx.label("well_conditioned")
         ctx.require(abs(v - math.sqrt(ref2)) <= 1e-6 * math.sqrt(ref2), "value_rel",
                     lambda: "heat=%r, reference=%r" % (v, math.sqrt(ref2)))
